@@ -142,8 +142,32 @@ func H_C12_truncated(keyLen, hostLen int) {
 	verifrt.Assert(NewFromFile(path).Store(s) == nil, "store-succeeds")
 	info, _ := os.Stat(path)
 	n := int(info.Size())
+	_ = os.Chtimes(path, time.Unix(info.ModTime().Unix(), 0), time.Unix(info.ModTime().Unix(), 0)) // whole seconds
+	info, _ = os.Stat(path)
 	cut := verifrt.Len(n - 1)
+	// the loader that meets the torn file is a fresh one, or one that has read the intact file before (a
+	// long-running process whose session file is damaged later); it is asked more than once
+	ld := NewFromFile(path)
+	if verifrt.Bool() {
+		got0, err0 := ld.Load()
+		verifrt.Assert(err0 == nil && got0 != nil, "intact-file-loads")
+	}
 	_ = os.Truncate(path, int64(cut))
+	// the damage is later than the earlier read by more than the file system's timestamp granularity (a loader
+	// that trusts modification times cannot notice a change inside one tick; that is outside the claim)
+	t1 := info.ModTime().Unix()
+	dt := int64(verifrt.Byte())
+	verifrt.Assume(dt > 0)
+	_ = os.Chtimes(path, time.Unix(t1+dt, 0), time.Unix(t1+dt, 0))
+	for attempt := 0; attempt < 2; attempt++ {
+		var got *Session
+		var err error
+		pn := verifrt.Catch(func() { got, err = ld.Load() })
+		verifrt.Assert(!pn, "truncated-file-no-panic")
+		if !pn {
+			verifrt.Assert(err != nil && got == nil, "truncated-file-is-an-error")
+		}
+	}
 	var got *Session
 	var err error
 	pn := verifrt.Catch(func() { got, err = NewFromFile(path).Load() })
